@@ -253,6 +253,10 @@ def stan_args(ctx, rnd):
             left = 3 * b + k - 1
             i, t = 4, 3
             args.append((left + i + t, 12, i, t, b, 2, 1))
+    # warmup thinnings that do not divide the default 75 / 25 / 50 windows
+    for thw in [2, 3, 4, 6, 7, 8, 9, 10, 11, 12, 13, 24, 25]:
+        args.append((1000, 1000, 75, 50, 25, 1, thw))
+        args.append((200 + thw, 30, 30 + thw, 26, 25, 3, thw))
     n = 300 if ctx.quick else 4000
     for _ in range(n):
         w = rnd.choice([rnd.randint(15, 60), rnd.randint(20, 400), rnd.randint(100, 5000)])
@@ -306,7 +310,7 @@ def part_c(ctx, rnd):
         try:
             eps = stan_epochs(w, p, i, t, b, thp, thw)
             res = [(int(e.type), int(e.duration), int(e.thinning)) for e in eps]
-        except ValueError:
+        except Exception:      # documented: ValueError; any other exception class is a rejection too
             eps, res = None, None
         acc, chunk = None, None
         if eps is not None:
@@ -356,7 +360,7 @@ def emit_c(ctx, cases):
             return f"(({a}), {res}, {acc}, {ch})"
 
         txt = HEADER + f"""
-Definition cases := {lst(one(c) for c in chunk)}.
+Definition cases : list ((Z * Z * Z * Z * Z * Z * Z) * option (list econf) * option bool * option Z) := {lst(one(c) for c in chunk)}.
 Lemma shard_ok : forallb agrees_c cases = true.
 Proof. vm_compute. reflexivity. Qed.
 """
